@@ -89,6 +89,12 @@ def c04() -> int:
     return c.finish()
 
 
+def c11() -> int:
+    from .enum_timed import c11 as run
+
+    return run()
+
+
 def c13() -> int:
     from .enum_routes import c13 as run
 
@@ -101,4 +107,4 @@ def c14() -> int:
     return run()
 
 
-CHECKS = {"C04": c04, "C13": c13, "C14": c14, "C17": c17, "C02": c02, "C03": c03, "C07": c07}
+CHECKS = {"C11": c11, "C04": c04, "C13": c13, "C14": c14, "C17": c17, "C02": c02, "C03": c03, "C07": c07}
